@@ -84,6 +84,15 @@ def step (t : List String) : String :=
       let ws := xs.drop (3 * n)
       showFloats ((lmmPath1F opsF gammas fwd0 taus ws).flatMap id)
     | _, _ => "bad-op"
+  | "LMMF" :: n :: nf :: rest =>
+    match nat? n, nat? nf, floats? rest with
+    | some n, some nf, some xs =>
+      let lams := chunks n (xs.take (nf * n))
+      let fwd0 := (xs.drop (nf * n)).take n
+      let taus := (xs.drop (nf * n + n)).take n
+      let wss := chunks nf (xs.drop (nf * n + 2 * n))
+      showFloats ((lmmPathMF opsF lams fwd0 taus wss).flatMap id)
+    | _, _, _ => "bad-op"
   | "CAPF" :: isCap :: n :: rest =>
     match nat? isCap, nat? n, floats? rest with
     | some ic, some n, some (k :: f00 :: xs) =>
